@@ -1088,7 +1088,10 @@ fn pick_value(rng: &mut ChaCha20Rng) -> u64 {
 }
 
 fn pick_memo(rng: &mut ChaCha20Rng) -> Vec<u8> {
-    match rng.gen_range(0..6) {
+    // The memo field is 512 bytes; a shorter vector is zero-padded. Shapes sit on the boundaries
+    // of "trailing zeros stripped" encodings: 0, 1, 511 and 512 significant bytes, the "no memo"
+    // marker alone and filling the field, text and arbitrary-data lead bytes.
+    match rng.gen_range(0..12) {
         0 => vec![],
         1 => vec![0xf6],
         2 => b"hello memo".to_vec(),
@@ -1096,6 +1099,7 @@ fn pick_memo(rng: &mut ChaCha20Rng) -> Vec<u8> {
             let mut v = vec![0u8; 512];
             rng.fill_bytes(&mut v);
             v[0] = 0xff;
+            v[511] |= 1; // all 512 bytes significant
             v
         }
         4 => {
@@ -1104,6 +1108,22 @@ fn pick_memo(rng: &mut ChaCha20Rng) -> Vec<u8> {
             let n = v.len();
             v[0] = b'a';
             v[n - 1] = b'z';
+            v
+        }
+        5 => vec![0xf6; 512],
+        6 => vec![b'a'; 512],
+        7 => {
+            // 511 significant bytes
+            let mut v = vec![b'b'; 511];
+            v[0] = if rng.gen_bool(0.5) { b't' } else { 0xff };
+            v
+        }
+        8 => vec![rng.gen_range(1..=0xf4u8)],
+        9 => {
+            // 512 bytes whose last byte is zero (510 or fewer significant bytes + padding)
+            let mut v = vec![0u8; 512];
+            v[0] = 0xff;
+            v[509] = 7;
             v
         }
         _ => {
